@@ -1076,3 +1076,373 @@ Proof. intros H. apply id_adv_frame. apply (bstep_fail_adv _ _ _ _ _ _ H). Qed.
 Corollary failed_call_state k_fc ds s c s' x :
   bstep k_fc ds s c = Some (s', BFail x) -> s' = s \/ (bs_next s + 1 < w32 /\ s' = bump s).
 Proof. apply bstep_fail_adv. Qed.
+
+(** the id counter does advance in a failed call: a generated method with a fresh
+    result id called with no block selected *)
+Example failed_call_advances_id :
+  let d := {| d_name := "nop"; d_params := []; d_opcode := 0; d_rt := RtNone; d_rid := RidFresh;
+              d_slots := []; d_sink := SBlock None; d_ret := RetId |} in
+  match bstep 0 [d] bnew (CGen "nop" []) with
+  | Some (s', o) => o = BFail BDetachedInstruction /\ bs_next s' = 2 /\ bs_next bnew = 1
+  | None => False
+  end.
+Proof. vm_compute. auto. Qed.
+
+(** * B5: structure rules *)
+Definition is_fail (o : bout) : Prop := exists x, o = BFail x.
+
+Definition same_sections (m m' : module inst) : Prop :=
+  m_caps inst m' = m_caps inst m /\ m_exts inst m' = m_exts inst m /\ m_imports inst m' = m_imports inst m /\
+  m_memory_model inst m' = m_memory_model inst m /\ m_entry_points inst m' = m_entry_points inst m /\
+  m_exec_modes inst m' = m_exec_modes inst m /\ m_debug_string_source inst m' = m_debug_string_source inst m /\
+  m_debug_names inst m' = m_debug_names inst m /\ m_debug_module_processed inst m' = m_debug_module_processed inst m /\
+  m_annotations inst m' = m_annotations inst m /\ m_types_global_values inst m' = m_types_global_values inst m.
+
+Lemma same_sections_set_functions m fs : same_sections m (set_functions m fs).
+Proof. unfold same_sections, set_functions. cbn. tauto. Qed.
+
+Lemma same_sections_eq m m' fs : m' = m -> same_sections m (set_functions m' fs).
+Proof. intros ->. apply same_sections_set_functions. Qed.
+
+Lemma bstep_hand k_fc ds s :
+  (forall r f c t, bstep k_fc ds s (CBeginFunction r f c t) = Some (begin_function k_fc s r f c t)) /\
+  bstep k_fc ds s CEndFunction = Some (end_function s) /\
+  (forall t, bstep k_fc ds s (CFunctionParameter t) = Some (function_parameter s t)) /\
+  (forall l, bstep k_fc ds s (CBeginBlock l) = Some (begin_block_gen true s l)) /\
+  (forall l, bstep k_fc ds s (CBeginBlockNoLabel l) = Some (begin_block_gen false s l)).
+Proof. cbn [bstep]. auto. Qed.
+
+Theorem begin_function_rule k_fc ds s r fid c t s' o :
+  sel_ok s -> bs_next s + 1 < w32 ->
+  bstep k_fc ds s (CBeginFunction r fid c t) = Some (s', o) ->
+  (is_fail o <-> bs_fn s <> None) /\
+  (is_fail o -> o = BFail BNestedFunction) /\
+  (bs_fn s = None ->
+     exists id, o = BVal id /\ (fid = None -> id = bs_next s) /\ (forall v, fid = Some v -> id = v) /\
+       fns s' = fns s ++ [new_fn k_fc r id c t] /\
+       bs_fn s' = Some (length (fns s)) /\ bs_blk s' = None /\
+       same_sections (bs_module s) (bs_module s') /\ bs_header s' = bs_header s).
+Proof.
+  intros Hok Hn H. cbn [bstep] in H. inversion H as [H1]. clear H. apply begin_function_spec in H1.
+  destruct H1 as [[f [Ef [-> ->]]]|[[_ [_ [Hp _]]]|[Ef [id [s1 [Hc [-> ->]]]]]]].
+  - split; [|split].
+    + split; [intros _; congruence|intros _; exists BNestedFunction; reflexivity].
+    + intros _. reflexivity.
+    + intros E. congruence.
+  - lia.
+  - destruct (id_adv_frame s s1 (id_choice_adv _ _ _ _ Hc)) as [Hm [_ [Hb [Hh _]]]].
+    split; [|split].
+    + split; [intros [x Hx]; discriminate|intros E; congruence].
+    + intros [x Hx]. discriminate.
+    + intros _. exists id. split; [reflexivity|].
+      split; [intros E; destruct Hc as [[Hc _]|[_ [Hc _]]]; [congruence|exact Hc]|].
+      split; [intros v E; destruct Hc as [[Hc _]|[Hc _]]; congruence|].
+      cbn [with_sel with_mod bs_fn bs_blk bs_module bs_header set_functions m_functions].
+      rewrite Hm, Hb, Hh. split; [reflexivity|]. split.
+      { rewrite app_length. cbn [length]. f_equal. lia. }
+      split; [apply (sel_ok_fn_none s Hok Ef)|]. split; [|reflexivity].
+      apply same_sections_set_functions.
+Qed.
+
+Theorem begin_block_rule wl s lid s' o :
+  sel_ok s -> bs_next s + 1 < w32 ->
+  begin_block_gen wl s lid = (s', o) ->
+  (is_fail o <-> bs_fn s = None \/ bs_blk s <> None) /\
+  (bs_fn s = None -> o = BFail BDetachedBlock) /\
+  (bs_fn s <> None -> bs_blk s <> None -> o = BFail BNestedBlock) /\
+  (forall f, bs_fn s = Some f -> bs_blk s = None ->
+     exists fn id, nth_error (fns s) f = Some fn /\ o = BVal id /\
+       (lid = None -> id = bs_next s) /\ (forall v, lid = Some v -> id = v) /\
+       bs_fn s' = Some f /\ bs_blk s' = Some (length (f_blocks inst fn)) /\
+       length (fns s') = length (fns s) /\
+       nth_error (fns s') f = Some (fn_with_blocks fn (f_blocks inst fn ++ [new_blk wl id])) /\
+       (forall g, g <> f -> nth_error (fns s') g = nth_error (fns s) g) /\
+       same_sections (bs_module s) (bs_module s') /\ bs_header s' = bs_header s).
+Proof.
+  intros Hok Hn H. apply begin_block_gen_spec in H; [|exact Hok].
+  destruct H as [[Ef [-> ->]]|[[f [b [Ef [Eb [-> ->]]]]]|[[f [_ [_ [_ [Hp _]]]]]|[f [fn [id [s1 [Ef [Eb [Hfn [Hc [-> ->]]]]]]]]]]]].
+  - split; [|split; [|split]].
+    + split; [auto|intros _; exists BDetachedBlock; reflexivity].
+    + reflexivity.
+    + congruence.
+    + intros f E. congruence.
+  - split; [|split; [|split]].
+    + split; [intros _; right; congruence|intros _; exists BNestedBlock; reflexivity].
+    + congruence.
+    + reflexivity.
+    + intros f' _ E. congruence.
+  - lia.
+  - destruct (id_adv_frame s s1 (id_choice_adv _ _ _ _ Hc)) as [Hm [_ [_ [Hh _]]]].
+    split; [|split; [|split]].
+    + split; [intros [x Hx]; discriminate|intros [E|E]; congruence].
+    + congruence.
+    + congruence.
+    + intros f' Ef' _. assert (f' = f) by congruence. subst f'. exists fn, id.
+      split; [exact Hfn|]. split; [reflexivity|].
+      split; [intros E; destruct Hc as [[Hc _]|[_ [Hc _]]]; [congruence|exact Hc]|].
+      split; [intros v E; destruct Hc as [[Hc _]|[Hc _]]; congruence|].
+      cbn [with_sel with_mod bs_fn bs_blk bs_module bs_header set_functions m_functions].
+      rewrite Hm, Hh. split; [reflexivity|]. split.
+      { rewrite app_length. cbn [length]. f_equal. lia. }
+      split; [apply length_update_nth|]. split.
+      { rewrite nth_error_update_nth_eq, Hfn. reflexivity. }
+      split; [intros g Hg; apply nth_error_update_nth_neq; exact Hg|]. split; [|reflexivity].
+      apply same_sections_set_functions.
+Qed.
+
+Theorem function_parameter_rule s rty s' o :
+  sel_ok s -> bs_next s + 1 < w32 ->
+  function_parameter s rty = (s', o) ->
+  (is_fail o <-> bs_fn s = None) /\
+  (is_fail o -> o = BFail BDetachedFunctionParameter) /\
+  (forall f, bs_fn s = Some f ->
+     exists fn, nth_error (fns s) f = Some fn /\ o = BVal (bs_next s) /\
+       bs_fn s' = bs_fn s /\ bs_blk s' = bs_blk s /\ length (fns s') = length (fns s) /\
+       nth_error (fns s') f = Some (fn_with_param fn (mk_inst OP_FUNCTION_PARAMETER (Some rty) (Some (bs_next s)) [])) /\
+       (forall g, g <> f -> nth_error (fns s') g = nth_error (fns s) g) /\
+       same_sections (bs_module s) (bs_module s') /\ bs_header s' = bs_header s).
+Proof.
+  intros Hok Hn H. apply function_parameter_spec in H; [|exact Hok].
+  destruct H as [[Ef [-> ->]]|[[f [_ [Hp _]]]|[f [fn [Ef [Hfn [_ [-> ->]]]]]]]].
+  - split; [|split].
+    + split; [auto|intros _; exists BDetachedFunctionParameter; reflexivity].
+    + reflexivity.
+    + intros f E. congruence.
+  - lia.
+  - split; [|split].
+    + split; [intros [x Hx]; discriminate|congruence].
+    + intros [x Hx]. discriminate.
+    + intros f' Ef'. assert (f' = f) by congruence. subst f'. exists fn.
+      split; [exact Hfn|]. split; [reflexivity|].
+      cbn [with_mod bump bs_fn bs_blk bs_module bs_header set_functions m_functions].
+      split; [reflexivity|]. split; [reflexivity|]. split; [apply length_update_nth|]. split.
+      { rewrite nth_error_update_nth_eq, Hfn. reflexivity. }
+      split; [intros g Hg; apply nth_error_update_nth_neq; exact Hg|]. split; [|reflexivity].
+      apply same_sections_set_functions.
+Qed.
+
+Theorem end_function_rule s s' o :
+  sel_ok s -> end_function s = (s', o) ->
+  (is_fail o <-> bs_fn s = None) /\
+  (is_fail o -> o = BFail BMismatchedFunctionEnd) /\
+  (forall f, bs_fn s = Some f ->
+     exists fn, nth_error (fns s) f = Some fn /\ o = BUnit /\ bs_fn s' = None /\ bs_blk s' = None /\
+       length (fns s') = length (fns s) /\ nth_error (fns s') f = Some (fn_with_end fn) /\
+       (forall g, g <> f -> nth_error (fns s') g = nth_error (fns s) g) /\
+       same_sections (bs_module s) (bs_module s') /\ bs_header s' = bs_header s /\ bs_next s' = bs_next s).
+Proof.
+  intros Hok H. apply end_function_spec in H; [|exact Hok].
+  destruct H as [[Ef [-> ->]]|[f [fn [Ef [Hfn [-> ->]]]]]].
+  - split; [|split].
+    + split; [auto|intros _; exists BMismatchedFunctionEnd; reflexivity].
+    + reflexivity.
+    + intros f E. congruence.
+  - split; [|split].
+    + split; [intros [x Hx]; discriminate|congruence].
+    + intros [x Hx]. discriminate.
+    + intros f' Ef'. assert (f' = f) by congruence. subst f'. exists fn.
+      split; [exact Hfn|]. split; [reflexivity|].
+      cbn [with_sel with_mod bs_fn bs_blk bs_module bs_header bs_next set_functions m_functions].
+      split; [reflexivity|]. split; [reflexivity|]. split; [apply length_update_nth|]. split.
+      { rewrite nth_error_update_nth_eq, Hfn. reflexivity. }
+      split; [intros g Hg; apply nth_error_update_nth_neq; exact Hg|]. split; [|split; reflexivity].
+      apply same_sections_set_functions.
+Qed.
+
+(** ** descriptor calls that insert into a block *)
+Lemma run_descriptor_inv d s e s' o :
+  is_dedup (d_sink d) = false -> run_descriptor d s e = Some (s', o) ->
+  exists ops rtv, all_operands e (d_slots d) = Some ops /\ rt_of (d_rt d) e = Some rtv /\
+    ((settle_id (d_rid d) s e = Some None /\ s' = s /\ o = BPanic /\ bs_next s + 1 >= w32) \/
+     (exists idv s1, settle_id (d_rid d) s e = Some (Some (idv, s1)) /\ id_adv s s1 /\
+        sink_step (d_sink d) (d_ret d) e s1 idv (mk_inst (d_opcode d) rtv idv ops) = Some (s', o))).
+Proof.
+  intros Hd H. rewrite run_descriptor_eq in H.
+  destruct (all_operands e (d_slots d)) as [ops|]; [|discriminate].
+  destruct (rt_of (d_rt d) e) as [rtv|]; [|discriminate].
+  rewrite Hd in H. exists ops, rtv. split; [reflexivity|]. split; [reflexivity|].
+  destruct (settle_id (d_rid d) s e) as [[[idv s1]|]|] eqn:ES; [| |discriminate].
+  - right. exists idv, s1. split; [reflexivity|]. split; [apply (settle_id_some _ _ _ _ _ ES)|exact H].
+  - left. inversion H; subst. split; [reflexivity|]. split; [reflexivity|]. split; [reflexivity|].
+    apply (settle_id_panic _ _ _ ES).
+Qed.
+
+Definition block_selected (s : bstate) : Prop := exists f b, bs_fn s = Some f /\ bs_blk s = Some b.
+
+Theorem block_sink_rule k_fc ds s m e d pt s' o :
+  sel_ok s -> bs_next s + 1 < w32 ->
+  find_desc ds m = Some d -> d_sink d = SBlock pt ->
+  bstep k_fc ds s (CGen m e) = Some (s', o) ->
+  (is_fail o <-> ~ block_selected s) /\
+  (is_fail o -> o = BFail BDetachedInstruction) /\
+  (used_offset_out_of_range ds s (CGen m e) = false -> o <> BPanic) /\
+  (~ is_fail o -> o <> BPanic -> bs_fn s' = bs_fn s /\ bs_blk s' = bs_blk s /\ bs_header s' = bs_header s).
+Proof.
+  intros Hok Hn Hd Hs H.
+  assert (Hnp : used_offset_out_of_range ds s (CGen m e) = false -> o <> BPanic).
+  { intros Hu Ho. subst o. destruct (no_panic_used _ _ _ _ _ Hok H) as [H1|H1]; [lia|congruence]. }
+  cbn [bstep] in H. rewrite Hd in H.
+  apply run_descriptor_inv in H; [|rewrite Hs; reflexivity].
+  destruct H as [ops [rtv [_ [_ [[_ [_ [_ Hp]]]|[idv [s1 [_ [Ha H]]]]]]]]]; [lia|].
+  destruct (id_adv_frame _ _ Ha) as [_ [Hf [Hb [Hh _]]]].
+  rewrite Hs in H. cbn [sink_step] in H.
+  destruct (point_of e pt) as [p|]; [|discriminate].
+  destruct (insert_into_block s1 p (mk_inst (d_opcode d) rtv idv ops)) as [s2 o2] eqn:EI.
+  pose proof (iib_spec _ _ _ _ _ (id_adv_sel_ok _ _ Ha Hok) EI) as Hsp.
+  destruct Hsp as [[-> [-> Hsel]]|[f [b [fn [blk [Ef [Eb [_ [_ [_ Hsp]]]]]]]]]];
+    [|destruct Hsp as [[-> [-> _]]|[is' [_ [-> ->]]]]].
+  - inversion H; subst s' o. rewrite Hf, Hb in Hsel. split; [|split; [|split]].
+    + split; [|intros _; exists BDetachedInstruction; reflexivity].
+      intros _ [f [b [E1 E2]]]. destruct Hsel; congruence.
+    + intros _. reflexivity.
+    + exact Hnp.
+    + intros Hnf. destruct Hnf. exists BDetachedInstruction. reflexivity.
+  - inversion H; subst s' o. rewrite Hf in Ef. rewrite Hb in Eb. split; [|split; [|split]].
+    + split; [intros [x Hx]; discriminate|]. intros Hns. destruct Hns. exists f, b. auto.
+    + intros [x Hx]. discriminate.
+    + exact Hnp.
+    + intros _ Hc. congruence.
+  - inversion H; subst s' o. rewrite Hf in Ef. rewrite Hb in Eb. split; [|split; [|split]].
+    + split; [intros [x Hx]; destruct (ret_val_not_fail _ _ _ Hx)|]. intros Hns. destruct Hns. exists f, b. auto.
+    + intros [x Hx]. destruct (ret_val_not_fail _ _ _ Hx).
+    + exact Hnp.
+    + intros _ _. cbn [with_mod bs_fn bs_blk bs_header]. auto.
+Qed.
+
+Theorem end_block_sink_rule k_fc ds s m e d pt s' o :
+  sel_ok s -> bs_next s + 1 < w32 ->
+  find_desc ds m = Some d -> d_sink d = SEndBlock pt ->
+  bstep k_fc ds s (CGen m e) = Some (s', o) ->
+  (is_fail o <-> bs_blk s = None) /\
+  (is_fail o -> o = BFail BMismatchedTerminator) /\
+  (used_offset_out_of_range ds s (CGen m e) = false -> o <> BPanic) /\
+  (~ is_fail o -> o <> BPanic -> o = BUnit /\ bs_blk s' = None /\ bs_fn s' = bs_fn s /\ bs_header s' = bs_header s).
+Proof.
+  intros Hok Hn Hd Hs H.
+  assert (Hnp : used_offset_out_of_range ds s (CGen m e) = false -> o <> BPanic).
+  { intros Hu Ho. subst o. destruct (no_panic_used _ _ _ _ _ Hok H) as [H1|H1]; [lia|congruence]. }
+  cbn [bstep] in H. rewrite Hd in H.
+  apply run_descriptor_inv in H; [|rewrite Hs; reflexivity].
+  destruct H as [ops [rtv [_ [_ [[_ [_ [_ Hp]]]|[idv [s1 [_ [Ha H]]]]]]]]]; [lia|].
+  destruct (id_adv_frame _ _ Ha) as [_ [Hf [Hb [Hh _]]]].
+  pose proof (id_adv_sel_ok _ _ Ha Hok) as Hok1.
+  rewrite Hs in H. cbn [sink_step] in H.
+  destruct (point_of e pt) as [p|]; [|discriminate].
+  inversion H as [H1]. clear H. apply ieb_spec in H1.
+  destruct H1 as [[Eb [-> ->]]|[b [s2 [o2 [Eb [EI Hc]]]]]].
+  - rewrite Hb in Eb. split; [|split; [|split]].
+    + split; [auto|intros _; exists BMismatchedTerminator; reflexivity].
+    + intros _. reflexivity.
+    + exact Hnp.
+    + intros Hnf. destruct Hnf. exists BMismatchedTerminator. reflexivity.
+  - pose proof (iib_spec _ _ _ _ _ Hok1 EI) as Hsp.
+    rewrite Hb in Eb.
+    destruct Hsp as [[_ [_ Hsel]]|[f [b' [fn [blk [Ef [_ [_ [_ [_ Hsp]]]]]]]]]].
+    { destruct (sel_ok_blk_fn _ _ Hok Eb) as [f Ef]. rewrite Hf, Hb in Hsel. destruct Hsel; congruence. }
+    destruct Hsp as [[-> [-> _]]|[is' [_ [-> ->]]]].
+    + destruct Hc as [[Hc _]|[_ [-> ->]]]; [discriminate|]. split; [|split; [|split]].
+      * split; [intros [x Hx]; discriminate|congruence].
+      * intros [x Hx]. discriminate.
+      * exact Hnp.
+      * intros _ Hc. congruence.
+    + destruct Hc as [[_ [-> ->]]|[Hc _]]; [|congruence]. split; [|split; [|split]].
+      * split; [intros [x Hx]; discriminate|congruence].
+      * intros [x Hx]. discriminate.
+      * exact Hnp.
+      * intros _ _. cbn [with_sel with_mod bs_fn bs_blk bs_header]. auto.
+Qed.
+
+(** * B6: effect of a successful insertion at the end of the selected block *)
+Theorem block_append_effect k_fc ds s m e d pt s' o f b :
+  sel_ok s ->
+  find_desc ds m = Some d -> d_sink d = SBlock pt -> point_of e pt = Some IEnd ->
+  bs_fn s = Some f -> bs_blk s = Some b ->
+  bstep k_fc ds s (CGen m e) = Some (s', o) -> o <> BPanic ->
+  exists fn blk ops rt rid s1,
+    all_operands e (d_slots d) = Some ops /\ rt_of (d_rt d) e = Some rt /\
+    settle_id (d_rid d) s e = Some (Some (rid, s1)) /\
+    nth_error (fns s) f = Some fn /\ nth_error (f_blocks inst fn) b = Some blk /\
+    o = ret_val (d_ret d) rid /\
+    bs_fn s' = Some f /\ bs_blk s' = Some b /\ bs_header s' = bs_header s /\ bs_next s' = bs_next s1 /\
+    same_sections (bs_module s) (bs_module s') /\
+    length (fns s') = length (fns s) /\
+    (forall g, g <> f -> nth_error (fns s') g = nth_error (fns s) g) /\
+    exists fn', nth_error (fns s') f = Some fn' /\
+      f_def inst fn' = f_def inst fn /\ f_end inst fn' = f_end inst fn /\ f_params inst fn' = f_params inst fn /\
+      length (f_blocks inst fn') = length (f_blocks inst fn) /\
+      (forall c, c <> b -> nth_error (f_blocks inst fn') c = nth_error (f_blocks inst fn) c) /\
+      exists blk', nth_error (f_blocks inst fn') b = Some blk' /\
+        b_label inst blk' = b_label inst blk /\
+        b_insts inst blk' = b_insts inst blk ++ [mk_inst (d_opcode d) rt rid ops].
+Proof.
+  intros Hok Hd Hs Hpt Ef Eb H Hnp.
+  cbn [bstep] in H. rewrite Hd in H.
+  apply run_descriptor_inv in H; [|rewrite Hs; reflexivity].
+  destruct H as [ops [rtv [Hops [Hrt [[_ [_ [Hp _]]]|[idv [s1 [Hset [Ha H]]]]]]]]]; [congruence|].
+  destruct (id_adv_frame _ _ Ha) as [Hm [Hf [Hb [Hh _]]]].
+  pose proof (id_adv_sel_ok _ _ Ha Hok) as Hok1.
+  rewrite Hs in H. cbn [sink_step] in H. rewrite Hpt in H.
+  destruct (insert_into_block s1 IEnd (mk_inst (d_opcode d) rtv idv ops)) as [s2 o2] eqn:EI.
+  assert (Eb1 : bs_blk s1 = Some b) by congruence.
+  pose proof (iib_end_unit _ _ _ _ _ Hok1 Eb1 EI) as Ho2. subst o2.
+  inversion H; subst s' o. clear H.
+  pose proof (iib_spec _ _ _ _ _ Hok1 EI) as Hsp.
+  destruct Hsp as [[_ [Hsp _]]|[f' [b' [fn [blk [Ef' [Eb' [Hfn [Hblk [_ Hsp]]]]]]]]]]; [discriminate|].
+  destruct Hsp as [[_ [Hsp _]]|[is' [Hpl [_ ->]]]]; [discriminate|].
+  assert (f' = f) by congruence. assert (b' = b) by congruence. subst f' b'.
+  cbn [place] in Hpl. inversion Hpl; subst is'. clear Hpl.
+  rewrite Hm in Hfn.
+  exists fn, blk, ops, rtv, idv, s1.
+  split; [exact Hops|]. split; [exact Hrt|]. split; [exact Hset|]. split; [exact Hfn|]. split; [exact Hblk|].
+  split; [reflexivity|].
+  cbn [with_mod bs_fn bs_blk bs_header bs_next bs_module set_functions m_functions].
+  split; [congruence|]. split; [congruence|]. split; [exact Hh|]. split; [reflexivity|].
+  split; [apply same_sections_eq; exact Hm|]. rewrite Hm.
+  split; [apply length_update_nth|].
+  split; [intros g Hg; apply nth_error_update_nth_neq; exact Hg|].
+  eexists. split; [rewrite nth_error_update_nth_eq, Hfn; reflexivity|].
+  cbn [ins_fn f_def f_end f_params f_blocks].
+  split; [reflexivity|]. split; [reflexivity|]. split; [reflexivity|].
+  split; [apply length_update_nth|].
+  split; [intros c Hc; apply nth_error_update_nth_neq; exact Hc|].
+  eexists. split; [rewrite nth_error_update_nth_eq, Hblk; reflexivity|].
+  cbn [ins_block b_label b_insts]. split; reflexivity.
+Qed.
+
+(** the hand-written rules above are about [bstep]: *)
+Lemma bstep_hand_inv k_fc ds s s' o :
+  (bstep k_fc ds s CEndFunction = Some (s', o) -> end_function s = (s', o)) /\
+  (forall t, bstep k_fc ds s (CFunctionParameter t) = Some (s', o) -> function_parameter s t = (s', o)) /\
+  (forall l, bstep k_fc ds s (CBeginBlock l) = Some (s', o) -> begin_block_gen true s l = (s', o)) /\
+  (forall l, bstep k_fc ds s (CBeginBlockNoLabel l) = Some (s', o) -> begin_block_gen false s l = (s', o)).
+Proof.
+  cbn [bstep]. split; [|split; [|split]]; intros; congruence.
+Qed.
+
+(** the offset panic is real (B3 is not vacuous): insert one-from-the-end into an empty block *)
+Example offset_panic_happens :
+  let d := {| d_name := "nop_at"; d_params := [("insert_point"%string, PPoint)]; d_opcode := 0; d_rt := RtNone;
+              d_rid := RidNone; d_slots := []; d_sink := SBlock (Some "insert_point"%string); d_ret := RetOkUnit |} in
+  match brun 0 [d] bnew [CBeginFunction 1 None 0 2; CBeginBlock None;
+                         CGen "nop_at" [("insert_point"%string, APoint (IFromEnd 1))]] with
+  | Some (s', os) => os = [BVal 1; BVal 2; BPanic]
+  | None => False
+  end.
+Proof. vm_compute. reflexivity. Qed.
+
+Print Assumptions sel_ok_init.
+Print Assumptions sel_ok_step.
+Print Assumptions sel_ok_run.
+Print Assumptions no_panic_used.
+Print Assumptions no_panic.
+Print Assumptions line_rule_never_panics.
+Print Assumptions failed_call_changes_nothing.
+Print Assumptions failed_call_advances_id.
+Print Assumptions begin_function_rule.
+Print Assumptions begin_block_rule.
+Print Assumptions function_parameter_rule.
+Print Assumptions end_function_rule.
+Print Assumptions block_sink_rule.
+Print Assumptions end_block_sink_rule.
+Print Assumptions block_append_effect.
+Print Assumptions bstep_hand_inv.
